@@ -153,8 +153,29 @@ theorem openParagraph_abs (cfg : PartCfg) (s s' : DC) (x : Xml) (c : Bool) (h : 
   rw [modTop_abs s2 (fun p => { p with listPos := (listPosition bb.1 x (x.id?.getD 0)).2 }) (fun p => rfl)]
   rfl
 
+theorem flushImplicit_abs (s s' : DC) (d : Option Nat) (h : s.flushImplicit d = .ok s') :
+    (absDC s).flushImplicit d = .ok (absDC s') := by
+  unfold DC.flushImplicit at h ⊢
+  cases d with
+  | none => have := pure_ok h; subst this; rfl
+  | some d =>
+    simp only at h ⊢
+    have e : (absDC s).openPars.getLast? = s.openPars.getLast?.map erasePar := by simp [absDC, List.getLast?_map]
+    rw [e]
+    cases hl : s.openPars.getLast? with
+    | none => rw [hl] at h; have := pure_ok h; subst this; rfl
+    | some p =>
+      rw [hl] at h
+      simp only [Option.map_some] at h ⊢
+      have ee : (erasePar p).elem = p.elem := rfl
+      rw [ee]
+      split
+      · rename_i hn; rw [if_pos hn] at h; exact concludePar_abs s s' h
+      · rename_i hn; rw [if_neg hn] at h; have := pure_ok h; subst this; rfl
+
 theorem noteLabel_abs (s s' : DC) (x : Xml) (kind : String) (h : noteLabel s x kind = .ok s') :
-    ∃ sep, isSeparatorNote x = .ok sep ∧ absDC s' = if sep then absDC s else (absDC s).queueRunA := by
+    ∃ sep, isSeparatorNote x = .ok sep ∧
+      (if sep then pure (absDC s) else (absDC s).flushImplicit (some 4) >>= fun a0 => pure a0.queueRunA) = .ok (absDC s') := by
   unfold noteLabel at h
   obtain ⟨sep, hs, h⟩ := bind_ok h
   refine ⟨sep, hs, ?_⟩
@@ -163,8 +184,10 @@ theorem noteLabel_abs (s s' : DC) (x : Xml) (kind : String) (h : noteLabel s x k
   | false =>
     simp only [Bool.false_eq_true, if_false] at h ⊢
     obtain ⟨id, _, h⟩ := bind_ok h
+    obtain ⟨s0, h0, h⟩ := bind_ok h
     have := pure_ok h; subst this
-    exact queueRun_abs s _
+    rw [flushImplicit_abs s s0 _ h0]
+    simp only [ok_bind, pure, Except.pure, queueRun_abs]
 
 theorem insertOpt_abs (html : Bool) (s s' : DC) (t : Option Str) (h : insertOpt html s t = .ok s') :
     (t.isSome = false ∧ absDC s' = absDC s) ∨ (t.isSome = true ∧ (absDC s).ensureParA = .ok (absDC s')) := by
@@ -230,11 +253,23 @@ theorem openStep_abs (cfg : PartCfg) (s s' : DC) (x : Xml) (c : Bool) (roots : L
   · obtain ⟨h1, h2⟩ := withTrue_ok h; subst h2
     obtain ⟨sep, hs, he⟩ := noteLabel_abs s s' x _ h1
     simp only [hs, ok_bind, pure, Except.pure]
-    cases sep <;> simp [he]
+    cases sep with
+    | true => simp only [if_true, pure, Except.pure] at he ⊢; rw [Except.ok.inj he]
+    | false =>
+      simp only [Bool.false_eq_true, if_false] at he ⊢
+      obtain ⟨a0, ha0, he⟩ := bind_ok he
+      have := pure_ok he
+      simp only [ha0, ok_bind, this]
   · obtain ⟨h1, h2⟩ := withTrue_ok h; subst h2
     obtain ⟨sep, hs, he⟩ := noteLabel_abs s s' x _ h1
     simp only [hs, ok_bind, pure, Except.pure]
-    cases sep <;> simp [he]
+    cases sep with
+    | true => simp only [if_true, pure, Except.pure] at he ⊢; rw [Except.ok.inj he]
+    | false =>
+      simp only [Bool.false_eq_true, if_false] at he ⊢
+      obtain ⟨a0, ha0, he⟩ := bind_ok he
+      have := pure_ok he
+      simp only [ha0, ok_bind, this]
   · obtain ⟨h1, h2⟩ := withFalse_ok h; subst h2
     simp only [pure, Except.pure, ok_bind, openHyperlink_abs cfg s s' x roots h1]
   · obtain ⟨h1, h2⟩ := withTrue_ok h; subst h2
@@ -272,26 +307,6 @@ theorem openStep_abs (cfg : PartCfg) (s s' : DC) (x : Xml) (c : Bool) (roots : L
     simp only [pure, Except.pure, ok_bind, insertNewRun_abs cfg.html s s' _ h1]
   · have := pure_ok h; cases this
     split <;> first | rfl | (exfalso; simp_all)
-
-theorem flushImplicit_abs (s s' : DC) (d : Option Nat) (h : s.flushImplicit d = .ok s') :
-    (absDC s).flushImplicit d = .ok (absDC s') := by
-  unfold DC.flushImplicit at h ⊢
-  cases d with
-  | none => have := pure_ok h; subst this; rfl
-  | some d =>
-    simp only at h ⊢
-    have e : (absDC s).openPars.getLast? = s.openPars.getLast?.map erasePar := by simp [absDC, List.getLast?_map]
-    rw [e]
-    cases hl : s.openPars.getLast? with
-    | none => rw [hl] at h; have := pure_ok h; subst this; rfl
-    | some p =>
-      rw [hl] at h
-      simp only [Option.map_some] at h ⊢
-      have ee : (erasePar p).elem = p.elem := rfl
-      rw [ee]
-      split
-      · rename_i hn; rw [if_pos hn] at h; exact concludePar_abs s s' h
-      · rename_i hn; rw [if_neg hn] at h; have := pure_ok h; subst this; rfl
 
 theorem setCaretOpen_abs (s s' : DC) (d : Option Nat) (n : Option Str) (h : s.setCaretOpen d n = .ok s') :
     (absDC s).setCaretOpen d n = .ok (absDC s') := by
